@@ -55,8 +55,9 @@ KV(k, v) == [k |-> k, v |-> v]
 Null == [j |-> "null"]
 Atoms == {Null, [j |-> "t"], [j |-> "f"], [j |-> "x", c |-> "x01"], [j |-> "x", c |-> "xtru"],
           Arr(<<>>), Arr(<<N("p7")>>), Arr(<<Null>>), Obj(<<>>), Obj(<<KV("A", N("p7"))>>), Obj(<<KV("k", S("sx"))>>), Obj(<<KV("12", N("p7"))>>)}
-         \cup {N(c) : c \in NumClasses} \cup {S(c) : c \in StrClasses}
+         \cup {N(c) : c \in NumClasses} \cup {S(c) : c \in StrClasses \ (QClasses \ {"q7", "q300"})}
 AtomsR == {Null, [j |-> "t"], N("p7"), N("p300"), N("f1_5"), S("sx"), S("s12"), Arr(<<>>), Obj(<<>>), [j |-> "x", c |-> "x01"]}
+          \cup (IF Fam \in {"st1", "st2", "emb", "opts"} THEN {S(c) : c \in QClasses \cup {"strue", "sq", "snull"}} ELSE {})
 
 RECURSIVE Match(_)
 Match(t) ==
@@ -70,7 +71,9 @@ Match(t) ==
     [] t.k \in {"slice", "arr"} -> Arr(<<Match(t.e), Match(t.e)>>)
     [] t.k = "map" -> IF t.key \in {"str", "txt"} THEN Obj(<<KV("k", Match(t.e)), KV("x", Match(t.e))>>)
                       ELSE Obj(<<KV("12", Match(t.e)), KV("-1", Match(t.e))>>)
-    [] t.k = "st" -> Obj([i \in 1..Len(t.f) |-> KV(IF t.f[i].tag = "emb" THEN "A" ELSE t.f[i].jn, Match(IF t.f[i].tag = "emb" THEN [k |-> "i8"] ELSE t.f[i].t))])
+    [] t.k = "st" -> Obj([i \in 1..Len(t.f) |-> KV(IF t.f[i].tag = "emb" THEN "A" ELSE t.f[i].jn,
+                                                  IF t.f[i].tag = "str" /\ QuotableField(t.f[i].t) THEN S("q7")
+                                                  ELSE Match(IF t.f[i].tag = "emb" THEN [k |-> "i8"] ELSE t.f[i].t))])
 
 AltKeys == {"A", "a", "B", "b", "C", "x", "Z", "k", "12", "-1", "300", "01", ""}
 
